@@ -52,6 +52,7 @@ SENSITIVITY = [
     ("DefSuccessNonFinite", dict(DefSuccessNonFinite=True, UseRestarts=True, MaxUnsucc=1, MaxFun=4), "C10_SuccessFinite", False),
     ("DefNaNCompare", dict(DefNaNCompare=True), "C04_EveryIter", False),
     ("DefCtrlRhoend", dict(DefCtrlRhoend=True, UseRestarts=True, RhoendScaleDrop=1, MaxFun=4), "Termination", True),
+    ("DefAutoFlagLeak", dict(DefAutoFlagLeak=True, UseRestarts=True, SoftRestarts=False, MaxFun=4), "C07_DocumentedFlag", False),
 ]
 
 INV_OF = {
@@ -62,6 +63,7 @@ INV_OF = {
     "C10": (["C10_SmallTruth", "C10_RhoendTruth", "C10_MaxfunTruth", "C10_UnsuccTruth", "C10_Nruns", "C10_SuccessFinite"], []),
     "C11": (["C11_JacNames", "C11_Snapshot"], []),
     "C18": (["C18_Radii"], []),
+    "C07": (["C07_DocumentedFlag"], []),
 }
 
 
@@ -414,6 +416,14 @@ def corpus_C10(tier):
             inst.update(rhoend=float(corpus._pick(rng, [1e-1, 1e-2, 1e-3])), maxfun=150, prob="ros3", n=2, m=2)
             inst.pop("restarts", None)
         out.append(inst)
+    # restart machinery live: eager auto-detection, noise, hard and soft restarts, the budget at every position
+    AUTO = {"restarts.auto_detect.history": 3, "restarts.auto_detect.min_chgJ_slope": 0.0, "restarts.auto_detect.min_correl": 0.0}
+    for bi, b in enumerate([dict(n=2, m=2, prob="ros", restarts="hard", maxunsucc=2, noise_sd=1e-2, rhoend=1e-8, user_params=dict(AUTO)),
+                            dict(n=2, m=2, prob="ros", restarts="hardnew", maxunsucc=1, noise_sd=1e-2, rhoend=1e-8, user_params=dict(AUTO)),
+                            dict(n=2, m=3, prob="nl", restarts="soft", maxunsucc=1, noise_sd=1e-2, rhoend=1e-8, user_params=dict(AUTO))]):
+        b["seed"] = int(rng.integers(0, 2 ** 31 - 1))
+        for mf in range(8, 100, 1 if tier == "thorough" else 3):
+            out.append(dict(b, id=700000 + 1000 * bi + mf, maxfun=mf))
     return out
 
 
